@@ -289,3 +289,8 @@ def run(model, rep):
     rule_b(model, rep)
     rule_c(model, rep)
     rule_d(model, rep)
+    from . import shared
+    shared.falsy_zero_lint(model, rep, "C08.e-zero-is-a-value", lambda un: un.startswith(("passlib.handlers", "passlib.utils.handlers")),
+                           lambda un, q: q.split(".")[-1] in ("__init__", "from_string", "parse") or q.split(".")[-1].startswith(("_parse", "_norm")),
+                           witness="a stored hash whose numeric setting was altered to 0 is parsed as if the field were absent: it takes the class default and verifies")
+    rep.minimum("C08.e-zero-is-a-value", 5)
